@@ -26,6 +26,8 @@ type LoopContract struct {
 	Assigns    []*Clause
 	Decreases  *Clause
 	HasAssigns bool
+	Polls      string    // field name of a stop channel: every path around the loop must poll it (static duty, C15)
+	PollsProps []string
 	Uses       []*Clause // lemma instances assumed at the loop head (after the invariant) and on the back edge (before the invariant is re-proved)
 }
 
@@ -489,6 +491,13 @@ func (cs *ContractSet) parseFile(path string) error {
 			fmt.Sscanf(rest, "%d", &ord)
 			curLoop = &LoopContract{Ordinal: ord}
 			cur.Loops[ord] = curLoop
+		case "polls":
+			// polls <field>: every way round the loop passes a select / receive on the channel held in that field
+			if curLoop == nil {
+				return fmt.Errorf("%s: polls outside loop", where)
+			}
+			curLoop.Polls = rest
+			curLoop.PollsProps = append([]string(nil), props...)
 		case "endloop":
 			curLoop = nil
 		case "invariant":
